@@ -118,6 +118,11 @@ def run_case(case, ctx):
     ctx.check("stored", _ints(fh) == S, "stored:not-sorted-set-of-input", "stored values differ from the sorted input",
               given=given, stored=_ints(fh))
     ctx.check("stored", len(fh) == len(S) and fh.is_relative == case["rel"], "stored:len-or-flag", "len/is_relative wrong")
+    # the same collection entering through the validation function every forecaster / splitter uses
+    ok2, fh2 = ctx.call("check_fh:valid-input-rejected", check_fh, _container(given, cont) if case["rel"] else FH(_container(given, cont), is_relative=False))
+    if ok2:
+        ctx.check("stored", isinstance(fh2, FH) and _ints(fh2) == S and fh2.is_relative == case["rel"], "stored:check_fh:not-sorted-set-of-input",
+                  "check_fh does not return the horizon of the given steps", given=given, container=cont, stored=_ints(fh2) if isinstance(fh2, FH) else repr(fh2)[:60])
     ok, fh2 = ctx.call("check_fh:valid-input-rejected", check_fh, fh)
     for c in case["cutoffs"]:
         cc = np.int64(c) if case["np_cutoff"] else int(c)
